@@ -99,6 +99,17 @@ def handleGeom (op : String) (args : List String) : String :=
       | some (rw, rh) => let _ := restore; s!"ok {showBits rw} {showBits rh}"
       | none => "err"
     | _, _, _, _, _, _, _ => "bad-op"
+  | "fontsize", dpi :: dflt :: chain =>
+    -- chain entries `<unit>:<f32 bits>` (the f64 -> f32 cast of the number is done by the harness)
+    let items := allSome (chain.map fun c =>
+      match c.splitOn ":" with
+      | [u, b] => match parseUnit? u, parseF32? b with
+        | some u, some n => some ({ number := n, unit := u } : Length)
+        | _, _ => none
+      | _ => none)
+    match parseF32? dpi, parseF32? dflt, items with
+    | some dpi, some d, some items => showBits (resolveFontSize F32.rnd dpi d items)
+    | _, _, _ => "bad-op"
   | _, _ => "bad-op"
 
 end Driver
